@@ -62,7 +62,8 @@ var fields = map[LT]map[string]fld{
 		// the three reserve addresses are functions of the id in the model (always well-formed)
 		"SellingReserveAddress": {"(0 : Acc)", "Acc"}, "PayingReserveAddress": {"(0 : Acc)", "Acc"}, "VestingReserveAddress": {"(0 : Acc)", "Acc"},
 	},
-	"Keeper": {"Keeper": {"%s", "Keeper"}},
+	// `k.hooks`: the keeper's listener list (an interface that is nil until SetHooks), an oracle of the wrapper units
+	"Keeper": {"Keeper": {"%s", "Keeper"}, "hooks": {"hooks__", "Option List Nat"}},
 	"Params": {"ExtendedPeriod": {"(%s.period : Int)", "Int"}, "AuctionCreationFee": {"%s.creationFee", "Coins"}, "PlaceBidFee": {"%s.bidFee", "Coins"}},
 	"GenesisG": {"Params": {"%s.params", "Params"}, "AuctionList": {"%s.auctions", "List Auction"}, "AllowedBidderList": {"%s.allowed", "List AllowedArg"},
 		"BidList": {"%s.bids", "List Bid"}, "VestingQueueList": {"%s.vqs", "List VQ"}},
@@ -333,7 +334,7 @@ var mutators = map[string]fld{
 // renderers: how a value is recorded in an effect (GVal)
 var renderers = map[LT]string{
 	"Int": "GVal.int %s", "Dec": "GVal.int %s", "Time": "GVal.int %s", "Bool": "GVal.bool %s",
-	"Denom": "GVal.nat %s", "Acc": "GVal.nat %s", "Coin": "GVal.coin %s", "Bid": "GVal.bid %s",
+	"Denom": "GVal.nat %s", "Acc": "GVal.nat %s", "Nat": "GVal.nat %s", "Coin": "GVal.coin %s", "Bid": "GVal.bid %s",
 	"Addr": "GVal.addr %s", "Status": "GVal.status %s", "BidType": "GVal.bidType %s",
 	"Auction": "GVal.auction %s", "VQ": "GVal.vq %s", "List Time": "GVal.ints %s",
 	"List VS": "GVal.sched %s", "BankIn": "GVal.bankIn %s", "List BankOut": "GVal.bankOuts %s", "Map Acc Int": "GVal.amap %s", "MInfo": "GVal.minfo %s", "Params": "GVal.params %s", "List AllowedArg": "GVal.allowed %s", "AllowedArg": "GVal.allowed1 %s",
